@@ -70,7 +70,7 @@ def binop_cases(tab, quick, rnd, kinds):
     syms = [u['s'] for u in tab]
     pairs = list(itertools.product(syms, syms))
     if quick:
-        pairs = rnd.sample(pairs, 2500)
+        pairs = rnd.sample(pairs, 1500)
     for (s1, s2) in pairs:
         for op in ('mul', 'div'):
             for (k1, k2) in kinds:
@@ -113,6 +113,9 @@ def judge(ctx, cs, what, docs=True, confirm=True):
         e, d = r
         if 'exc' in e:
             ctx.deviation('Catalogue:%s:raises' % e['op'], '%s raised %s' % (_brief(e), e['exc']), dict(kind='catalogue', case=c))
+            continue
+        if e.get('skip'):          # an operand was rounded to zero at construction: nothing to judge
+            ctx.skipped += 1
             continue
         if d:
             divcases.append((c, d))
